@@ -439,6 +439,13 @@ class TaintInterp:
                 if all(s.kind == "c" for a in it.elem.alts for s in a):
                     # pieces of constant text: each piece is one alternative
                     return it.elem.union(sep)
+                # whole lines joined by nothing / by line breaks stay what
+                # they are: each piece is one alternative of the result, as
+                # if it had been appended in a loop
+                if sepchars <= {"\n"} and (sepchars or all(
+                        a and a[-1].kind == "c" and a[-1].text.endswith("\n")
+                        for a in it.elem.alts)):
+                    return it.elem.union(sep)
                 if all(s.kind == "c" or s.cls in ("LEX", "IDENT", "HEX",
                                                   "INT")
                        for a in it.elem.alts for s in a):
